@@ -52,6 +52,11 @@ func main() {
 	grpclog.SetLoggerV2(grpclog.NewLoggerV2(io.Discard, io.Discard, io.Discard))
 	out := hx.Open()
 	defer out.Close()
+	defer func() {
+		if w != nil {
+			os.RemoveAll(w.dir)
+		}
+	}()
 	if lines := hx.ReplayLines(); lines != nil {
 		for _, l := range lines {
 			if len(l) >= 2 {
